@@ -285,6 +285,9 @@ def x86_part(run, quick):
         # SIB operands: every REX.X / REX.B / index field / scale / mod combination (see x86gen.sib_sweep)
         for c in XG.sib_sweep(rng, 3 if quick else 24):
             yield c
+        # products at the edge of the destination width (see x86gen.mul_sweep)
+        for c in XG.mul_sweep(rng, 2 if quick else 20):
+            yield c
 
     for case in cases():
         if case is None:
@@ -307,10 +310,13 @@ def x86_part(run, quick):
             # SIB sweep: the address registers get the values that put the effective address inside the window
             for k, v in case.setregs.items():
                 regs[k] = v
-            sib = case.kw["sib"]
-            run.hist("x86_sib_index", "none" if sib["index_reg"] is None else GPR[sib["index_reg"]])
-            run.hist("x86_sib_base", "none" if sib["base_reg"] is None else GPR[sib["base_reg"]])
-            run.hist("x86_sib_form", "mod%d scale%d%s" % (sib["mod"], 1 << sib["scale"], " a32" if case.kw["a67"] else ""))
+            if "mul" in case.kw:
+                run.hist("x86_mul_edge", "%s/%d/%s" % (case.kw["mul"]["form"], case.kw["mul"]["width"], case.kw["mul"]["edge"]))
+            sib = case.kw.get("sib")
+            if sib is not None:
+                run.hist("x86_sib_index", "none" if sib["index_reg"] is None else GPR[sib["index_reg"]])
+                run.hist("x86_sib_base", "none" if sib["base_reg"] is None else GPR[sib["base_reg"]])
+                run.hist("x86_sib_form", "mod%d scale%d%s" % (sib["mod"], 1 << sib["scale"], " a32" if case.kw["a67"] else ""))
         flags = rng.choice([0, 0x8D5, rng.getrandbits(12) & 0x8D5])
         memwin = rng.randbytes(WIN)
         ctypes.memmove(base - 8, memwin, WIN)
@@ -483,6 +489,88 @@ def zl(v):
     return "(%d)" % v if v < 0 else str(v)
 
 
+def stack_part(run, quick):
+    """PUSH / POP of registers and of memory operands, including the forms that involve rsp itself (pop rsp, push rsp, [rsp+disp]
+    operands), which the native trampoline cannot run (it keeps the real stack pointer).  Oracle: the operation section of the
+    PUSH / POP pages of the Intel SDM, written out below on plain integers and a byte array: PUSH reads its operand (with the old
+    rsp) then decrements and stores; POP reads the top, increments, then computes a memory destination (with the new rsp) or writes
+    the register."""
+    import amoco.arch.x64.cpu_x64 as cpu
+    rng = random.Random(run.seed * 389 + 3)
+    WIN, base = 160, 0x20000
+    M64 = (1 << 64) - 1
+    cases = []
+    for r in range(16):
+        rex = b"\x41" if r >= 8 else b""
+        for pre, n in ((b"", 8), (b"\x66", 2)):
+            cases.append(("push r", pre + rex + bytes([0x50 | (r & 7)]), ("push", "reg", r, n)))
+            cases.append(("pop r", pre + rex + bytes([0x58 | (r & 7)]), ("pop", "reg", r, n)))
+        for disp in (0, 8, 0x10, 0xF8, 0xF0, 6):
+            mrm = bytes([0x40 | (r & 7)]) + (b"\x24" if (r & 7) == 4 else b"") + bytes([disp])
+            cases.append(("pop m", rex + b"\x8F" + mrm, ("pop", "mem", r, 8, disp)))
+            cases.append(("push m", rex + b"\xFF" + bytes([mrm[0] | 0x30]) + mrm[1:], ("push", "mem", r, 8, disp)))
+    done = 0
+    for name, code, what in cases:
+        for rep in range(2 if quick else 8):
+            regs = [rng.getrandbits(64) for _ in range(16)]
+            regs[4] = base + 64 + 8 * rng.randrange(0, 3)
+            if what[1] == "mem" and what[2] != 4:
+                regs[what[2]] = base + 72 + rng.randrange(0, 4)
+            elif what[1] == "reg" and what[2] != 4 and rng.random() < 0.3:
+                regs[what[2]] = base + 40
+            flags = rng.getrandbits(12) & 0x8D5
+            memwin = bytearray(rng.randbytes(WIN))
+            # reference
+            R, Mem = list(regs), bytearray(memwin)
+            op, kind, r, n = what[:4]
+            sx = lambda d: d - 256 if d >= 128 else d
+
+            def rd(a, k):
+                return int.from_bytes(Mem[a - base:a - base + k], "little")
+
+            def wr(a, k, v):
+                Mem[a - base:a - base + k] = (v & ((1 << (8 * k)) - 1)).to_bytes(k, "little")
+            if op == "push":
+                v = (R[r] & ((1 << (8 * n)) - 1)) if kind == "reg" else rd((R[r] + sx(what[4])) & M64, n)
+                R[4] = (R[4] - n) & M64
+                wr(R[4], n, v)
+            else:
+                v = rd(R[4], n)
+                R[4] = (R[4] + n) & M64
+                if kind == "reg":
+                    R[r] = v if n == 8 else ((R[r] & ~0xFFFF) | v)
+                else:
+                    wr((R[r] + sx(what[4])) & M64, n, v)
+            rep_ = {"isa": "x64", "code": code.hex(), "regs": regs, "flags": flags, "mem": bytes(memwin).hex(), "mem_base": base}
+            try:
+                res = x86_amoco(cpu, code, regs, flags, bytes(memwin), base)
+            except Exception as x:
+                run.violation("x64|%s|raised|%s" % (name, type(x).__name__), "%s (%s): executing the semantics raised %r" % (name, code.hex(), x), rep_)
+                continue
+            if res is None:
+                run.violation("x64|%s|not-decoded" % name, "amoco does not decode %s" % code.hex(), rep_)
+                continue
+            i, out, fl, sym, mw, rip = res
+            done += 1
+            run.count(("stack", code, tuple(regs), bytes(memwin)), nontrivial=True)
+            run.hist("x86_stack_forms", "%s%s" % (name, " (rsp)" if r == 4 else ""))
+            bad = None
+            for k in range(16):
+                if out[k] != R[k]:
+                    bad = ("reg", "%s is %s after amoco's semantics, the manual gives %#x" % (GPR[k], out[k] if isinstance(out[k], str) else hex(out[k]), R[k]))
+                    break
+            if bad is None and list(mw) != list(Mem):
+                k = next(k for k in range(WIN) if mw[k] != Mem[k])
+                bad = ("mem", "memory byte +%d is %r after amoco's semantics, the manual gives %#x" % (k, mw[k], Mem[k]))
+            if bad is None and (fl != flags or sym):
+                bad = ("flags", "flags changed: %#x -> %#x" % (flags, fl))
+            if bad is None and rip != 0x400000 + len(code):
+                bad = ("rip", "rip is %r" % (rip,))
+            if bad:
+                run.violation("x64|%s|%s" % (name.split()[0].upper(), bad[0]), "%s %s (%s): %s" % (name, code.hex(), i, bad[1]), rep_)
+    run.cov["x86_stack_cases"] = done
+
+
 def check(run):
     quick = run.tier == "quick"
     isa.load_all()
@@ -525,12 +613,13 @@ def check(run):
     run.cov["traces_validated_against_impl"] = run.cov.get("traces_validated_against_impl", 0) + ok
     x86_part(run, quick)
     alu_part(run, quick)
+    stack_part(run, quick)
     run.cov["trusted_base"] += ["coq/C06/RV.v is the reference (written from the RISC-V manual); harness/rvref.py mirrors it for diagnostics only",
                                 "native/x86run.c trampoline (register/flag load and store around the instruction) and the CPU of this machine",
                                 "harness/x86gen.py: encodings and the table of architecturally defined flags per instruction",
                                 "coq/C06/X86Alu.v is written from the Intel SDM; on every run it is compared with the host CPU as well as with amoco"]
-    run.assumptions += ["x86: instructions that touch rsp, transfer control (other than Jcc via SETcc), fault, or use rip-relative / segment-override addressing are not generated; "
-                        "MUL/DIV/IDIV one-operand forms, BT*, BS*, SHLD/SHRD, CMPXCHG, string instructions and IA-32-only encodings are outside the generated subset",
+    run.assumptions += ["x86 (native part): instructions that touch rsp (PUSH / POP are compared with the manual's operation section instead), transfer control (other than Jcc via SETcc), fault, or use rip-relative / segment-override addressing are not generated; "
+                        "DIV/IDIV, memory forms of the one-operand MUL/IMUL, BT*, BS*, SHLD/SHRD, CMPXCHG, string instructions and IA-32-only encodings are outside the generated subset",
                         "RISC-V: memory accesses that wrap around the top of the address space are not generated"]
     return run
 
